@@ -14,7 +14,7 @@ import gengrid
 import zinccodec
 
 FIELDS = ['num', 'esc', 'frac', 'dt', 'coord', 'sep', 'nl', 'mark', 'list', 'empty', 'gap', 'fin', 'ng']
-RANGES = {'num': 5, 'esc': 3, 'frac': 4, 'dt': 5, 'coord': 3, 'sep': 3, 'nl': 2, 'mark': 2, 'list': 4,
+RANGES = {'num': 5, 'esc': 4, 'frac': 4, 'dt': 5, 'coord': 3, 'sep': 3, 'nl': 2, 'mark': 2, 'list': 4,
           'empty': 2, 'gap': 3, 'fin': 2, 'ng': 2}
 
 
